@@ -45,15 +45,21 @@ def cases(tier, seed):
     # very long sequences that share their first and last residues but differ inside (process-wide memoisation
     # keyed on an abbreviated form of the sequence would confuse them)
     ends = gen.rand_seq(rng, "idp", lo=8, hi=8)
-    for j in range(NLONG[tier]):
-        yield {"k": "seq", "s": ends + gen.rand_seq(rng, rng.choice(["idp", "polyampholyte", "uniform"]),
-                                                     lo=1001, hi=1400) + ends}
+    longs = [ends + gen.rand_seq(rng, rng.choice(["idp", "polyampholyte", "uniform"]), lo=1001, hi=1400) + ends
+             for j in range(NLONG[tier])]
+    for j in range(0, len(longs), 3):
+        # analysed one after another in ONE process (what a process-wide table keyed on an abbreviation would confuse)
+        yield {"k": "longs", "seqs": longs[j:j + 3]}
     for i in range(NRANDOM[tier]):
         hi = 400 if i % 4 == 0 else 60
         yield {"k": "seq", "s": gen.rand_seq(rng, hi=hi)}
 
 
 def judge(case, rep, S):
+    if case["k"] == "longs":
+        for s in case["seqs"] + case["seqs"][:1]:
+            judge({"k": "seq", "s": s}, rep, S)
+        return
     if case["k"] == "pat":
         pat = M.pat_from_str(case["p"])
         seq = gen.spell(gen.sub_rng(0, "spell", case["p"]), pat)
